@@ -210,3 +210,16 @@ pub fn uniq(mut v: Vec<usize>) -> Vec<usize> {
 pub fn range(a: usize, b: usize) -> Vec<usize> {
     (a..=b).collect()
 }
+
+/// label VALUES that sit next to a reserved value or at the edge of the byte range (value-specific slips)
+pub fn special_labels() -> Vec<Lbl> {
+    vec![
+        L3Z,
+        Lbl::Three([0, 0, 1]),
+        Lbl::Three([0xFF; 3]),
+        Lbl::Six([0, 0, 0, 0, 0, 1]),
+        Lbl::Six([1, 0, 0, 0, 0, 0]),
+        Lbl::Six([0xFF; 6]),
+        Lbl::Six([0, 0, 0, 0x31, 0x32, 0x33]),
+    ]
+}
